@@ -1,5 +1,6 @@
 import Proofs.Lemmas.Teardown
 import TunnelModel.Metadata
+import Proofs.Lemmas.Publish
 /-!
   C02 — status and metadata are exactly what the application produced or gRPC specifies.
 
@@ -116,5 +117,56 @@ theorem C02_metadata_unencodable_iff (md : BMD) :
     · cases hk : validUTF8 v with
       | true => rfl
       | false => exact absurd ⟨kv, hkv, Or.inr ⟨v, hv, hk⟩⟩ hne
+
+/-! ### result publication on a client stream, under every interleaving
+     (L-atomic model `TunnelModel/Publish.lean`: any number of racing `finishStream` calls, a reader in
+     `RecvMsg`, an observer calling `Trailer()`; one action per atomic operation / critical section) -/
+
+open TunnelModel.Publish Proofs.Publish in
+/-- **Whoever has seen the end of the RPC sees its trailers**: in every reachable
+    state in which the reader has obtained the terminal result, `Trailer()` and
+    every `grpc.Trailer` target hold exactly the trailers of THE finisher that
+    won the race — now, and whenever the reader reads them in any continuation:
+    never nil because "not done yet", never another finisher's. -/
+theorem C02_reader_sees_trailers {err : Nat → TunnelModel.Publish.Err} {tr : Nat → TunnelModel.Publish.MD} (n k p : Nat) (as : List Act) {s : St}
+    (hr : run true err tr (init n k p) as = some s) {r : Option TunnelModel.Publish.Err} (hg : s.rpc = .got r) :
+    ∃ w, Winner s w ∧ (∀ w', Winner s w' → w' = w) ∧
+      (s.rTrailer = none →
+        ∃ s', step true err tr s .readTrailer = some s' ∧ s'.rTrailer = some (some (tr w))) ∧
+      (∀ t, t < k → s.rTarget = none →
+        ∃ s', step true err tr s (.readTarget t) = some s' ∧ s'.rTarget = some (tr w)) ∧
+      ∀ (as' : List Act) (s' : St), run true err tr s as' = some s' →
+        Winner s' w ∧ (∀ w', Winner s' w' → w' = w) ∧ s'.rpc = .got r ∧
+        (∀ v, s'.rTrailer = some v → v = some (tr w)) ∧ (∀ v, s'.rTarget = some v → v = tr w) :=
+  reader_sees_trailers n k p as hr hg
+
+open TunnelModel.Publish Proofs.Publish in
+/-- **The RPC completes exactly once**: the terminal result the reader gets, the
+    stored trailers and every target all belong to the same, unique winner. -/
+theorem C02_terminal_result_and_trailers_of_one_completion {err : Nat → TunnelModel.Publish.Err} {tr : Nat → TunnelModel.Publish.MD}
+    (n k p : Nat) (as : List Act) {s : St}
+    (hr : run true err tr (init n k p) as = some s) {r : Option TunnelModel.Publish.Err} (hg : s.rpc = .got r) :
+    ∃ w, Winner s w ∧ (∀ w', Winner s w' → w' = w) ∧ r = some (err w) ∧ s.done = some (err w) ∧
+      s.trailers = tr w ∧ s.trailerCall = some (tr w) ∧
+      ∀ (t : Nat) (v : TunnelModel.Publish.MD), s.targets[t]? = some v → v = tr w :=
+  terminal_result_is_the_winners n k p as hr hg
+
+open TunnelModel.Publish Proofs.Publish in
+/-- `Trailer()` is nil until `doneSignal` is closed and the winner's trailers ever after -/
+theorem C02_trailer_nil_before_end {err : Nat → TunnelModel.Publish.Err} {tr : Nat → TunnelModel.Publish.MD} (n k p : Nat) (as : List Act) {s : St}
+    (hr : run true err tr (init n k p) as = some s) :
+    (s.doneSig = false → s.trailerCall = none ∧ ∀ v ∈ s.peeks, v = none) ∧
+    (s.doneSig = true → ∃ w, Winner s w ∧ (∀ w', Winner s w' → w' = w) ∧ s.trailerCall = some (tr w) ∧
+      ∀ (as' : List Act) (s' : St), run true err tr s as' = some s' →
+        Winner s' w ∧ s'.trailerCall = some (tr w)) :=
+  trailer_nil_before_end n k p as hr
+
+open TunnelModel.Publish Proofs.Publish in
+/-- **Why the receiver is closed last** (defect D4, fixed in 48575b5): with the
+    old order — reader released before the trailers are stored — the reader gets
+    `io.EOF` and then reads nil trailers although the RPC ended with `[("k","v")]`. -/
+theorem C02_old_order_reader_misses_trailers :
+    (run false exErr exTr (init 1 1 0) d4).map appView = some ⟨.got (some 0), some none, some none⟩ :=
+  faulty_old_order_reader_misses_trailers
 
 end Proofs.C02
